@@ -1321,3 +1321,27 @@ func init() {
 		c.Clients = append(c.Clients, []Op{{K: "merge"}})
 	})
 }
+
+func init() {
+	// C13(b): the sync policy under concurrent callers (the base run of the ccrash arm, judged on its journal)
+	withCCrashArm("C13", 0.2, func(c *Case, rng *vrt.Rand, tier string) {
+		c.Cfg.IO = 0
+		c.Cfg.Sync = byte(rng.Pick([]int{1, 3, 3}))
+		c.Cfg.BPS = []uint{1, 30, 64, 200, 512, 4096}[rng.Intn(6)]
+		var tag uint32
+		keys := genKeys(rng, rng.Range(1, 4))
+		c.Setup = genSetup(rng, keys, &tag)
+		w := map[string]int{"put": 6, "del": 2, "get": 1, "sync": 2, "batch": 3, "yield": 1}
+		c.Clients = ccPrograms(rng, keys, &tag, rng.Range(2, 4), w, 6)
+		for ci := range c.Clients {
+			for j := range c.Clients[ci] {
+				if c.Clients[ci][j].K == "batch" {
+					c.Clients[ci][j].Flag = rng.Chance(0.6)
+				}
+			}
+		}
+		if rng.Chance(0.15) {
+			c.Clients = append(c.Clients, []Op{{K: "yield"}, {K: "merge"}})
+		}
+	})
+}
